@@ -7,28 +7,38 @@ use rand::{rngs::StdRng, Rng, SeedableRng};
 use serde_json::{json, Value};
 use std::ffi::OsString;
 
-fn obs_text(r: Result<Result<clap::ArgMatches, clap::Error>, String>) -> (Value, String) {
+type Parsed = (Value, String, Option<clap::ArgMatches>);
+fn obs_text(r: Result<Result<clap::ArgMatches, clap::Error>, String>) -> Parsed {
     match r {
-        Err(m) => (json!({"outcome": "Panic", "kind": "", "stderr": false, "exit": 0, "chain": [], "msg": m, "at": last_panic_loc()}), String::new()),
-        Ok(Ok(m)) => (json!({"outcome": "Ok", "kind": "", "stderr": false, "exit": 0, "chain": project_matches(&m)}), String::new()),
+        Err(m) => (json!({"outcome": "Panic", "kind": "", "stderr": false, "exit": 0, "chain": [], "msg": m, "at": last_panic_loc()}), String::new(), None),
+        Ok(Ok(m)) => (json!({"outcome": "Ok", "kind": "", "stderr": false, "exit": 0, "chain": project_matches(&m)}), String::new(), Some(m)),
         Ok(Err(e)) => {
             let text = guarded(std::panic::AssertUnwindSafe(|| e.render().to_string())).unwrap_or_else(|m| format!("<render panic {m}>"));
-            (json!({"outcome": "Err", "kind": format!("{:?}", e.kind()), "stderr": e.use_stderr(), "exit": e.exit_code(), "chain": []}), text)
+            (json!({"outcome": "Err", "kind": format!("{:?}", e.kind()), "stderr": e.use_stderr(), "exit": e.exit_code(), "chain": []}), text, None)
         }
     }
 }
-fn parse_mut(c: &mut Command, argv: &[Vec<u8>]) -> (Value, String) {
+fn parse_mut(c: &mut Command, argv: &[Vec<u8>]) -> Parsed {
     let args: Vec<OsString> = argv.iter().map(|a| os(a)).collect();
     obs_text(guarded(std::panic::AssertUnwindSafe(|| c.try_get_matches_from_mut(args))))
 }
-fn parse_owned(c: Command, argv: &[Vec<u8>]) -> (Value, String) {
+fn parse_owned(c: Command, argv: &[Vec<u8>]) -> Parsed {
     let args: Vec<OsString> = argv.iter().map(|a| os(a)).collect();
     obs_text(guarded(std::panic::AssertUnwindSafe(move || c.try_get_matches_from(args))))
+}
+/// "equal matches": the projected observation and clap's own `ArgMatches ==` (which also compares the stored value types)
+fn same(a: &Parsed, b: &Parsed) -> bool {
+    a.0 == b.0 && match (&a.2, &b.2) {
+        (Some(x), Some(y)) => guarded(std::panic::AssertUnwindSafe(|| x == y)).unwrap_or(false),
+        (None, None) => true,
+        _ => false,
+    }
 }
 
 /// run one history; returns the per-step records
 pub fn run_history(fresh: &Command, drec: &Value, hist: &[Value]) -> Vec<Value> {
-    let mut reused = fresh.clone();
+    let _ = fresh;
+    let mut reused = crate::def::build_cmd(&drec["cmd"]);
     let mut steps = vec![];
     for op in hist {
         let k = op["k"].as_str().unwrap();
@@ -36,11 +46,14 @@ pub fn run_history(fresh: &Command, drec: &Value, hist: &[Value]) -> Vec<Value> 
             "parse" => {
                 let argv = argv_with_bin(drec, &op["argv"]);
                 let snapshot = reused.clone();
-                let (o1, t1) = parse_mut(&mut reused, &argv);
-                let (o2, t2) = parse_owned(fresh.clone(), &argv);
-                let (o3, t3) = parse_owned(snapshot, &argv);
+                let p1 = parse_mut(&mut reused, &argv);
+                // "fresh": the definition as written (rebuilt from its description, never cloned, never used)
+                let p2 = parse_owned(crate::def::build_cmd(&drec["cmd"]), &argv);
+                let p3 = parse_owned(snapshot, &argv);
+                let (same_fresh, same_clone) = (same(&p1, &p2), same(&p1, &p3));
+                let ((o1, t1, _), (_, t2, _), (_, t3, _)) = (p1, p2, p3);
                 steps.push(json!({"k": k, "argv": op["argv"], "obs": o1,
-                    "same_fresh": o1 == o2, "same_clone": o1 == o3, "text_fresh": t1 == t2, "text_clone": t1 == t3,
+                    "same_fresh": same_fresh, "same_clone": same_clone, "text_fresh": t1 == t2, "text_clone": t1 == t3,
                     "text": if t1 != t2 || t1 != t3 { json!({"reused": t1, "fresh": t2, "clone": t3}) } else { json!({}) }}));
             }
             "build" => {
